@@ -11,7 +11,7 @@ from .. import lib_fm_transpile as T
 
 CORE = ('lb', 'step', 'lvafter', 'idiv', 'mod', 'intfn', 'sign', 'ipow', 'conv', 'while', 'select')
 POOLS = ('core', 'boundmod', 'fndiv', 'intcast', 'exitcycle', 'section', 'selneg')
-QUICK = {'core': 40, '*': 5}
+QUICK = {'core': 24, '*': 4}
 THOROUGH = {'core': 900, '*': 60}
 
 ASSUMPTIONS = [
